@@ -182,10 +182,19 @@ class RuntimeV1_0(Runtime):
 
             else:
                 # We need to slide all the flows based on the current event,
-                # to compute the next steps.
-                next_events = await self._compute_next_steps(
-                    events, processing_log=processing_log
-                )
+                # to compute the next steps. A flow can fail while it runs, e.g., an
+                # LLM-written flow (multi-step generation) with an expression that cannot
+                # be evaluated. Like for a failed action, the turn ends with the internal
+                # error message instead of an exception.
+                try:
+                    next_events = await self._compute_next_steps(
+                        events, processing_log=processing_log
+                    )
+                except Exception as e:
+                    log.warning("Error while computing the next steps: %s", e)
+                    next_events = self._internal_error_action_result(
+                        "I'm sorry, an internal error has occurred."
+                    ).events
 
             # If there is nothing else to do (this can also happen after an action or
             # after starting a generated flow), we wait for the next input.
@@ -205,9 +214,16 @@ class RuntimeV1_0(Runtime):
             if next_events[-1]["type"] == "Listen":
                 break
 
-            # As a safety measure, we stop the processing if we have too many events.
+            # As a safety measure, we stop the processing if we have too many events
+            # (e.g., an LLM-written flow that never waits for the user).
             if len(new_events) > 100:
-                raise Exception("Too many events.")
+                log.warning("Too many events. Stopping the processing for this turn.")
+                next_events = self._internal_error_action_result(
+                    "I'm sorry, an internal error has occurred."
+                ).events + [new_event_dict("Listen")]
+                events.extend(next_events)
+                new_events.extend(next_events)
+                break
 
         return new_events
 
@@ -535,8 +551,14 @@ class RuntimeV1_0(Runtime):
         # And we compute the next steps. The new flow should match the current event,
         # and start.
 
-        next_steps = await self._compute_next_steps(
-            events, processing_log=processing_log
-        )
+        try:
+            next_steps = await self._compute_next_steps(
+                events, processing_log=processing_log
+            )
+        except Exception as e:
+            log.warning("Error while starting the generated flow: %s", e)
+            next_steps = self._internal_error_action_result(
+                "I'm sorry, an internal error has occurred."
+            ).events
 
         return next_steps
